@@ -22,6 +22,8 @@ package main
 //	identifiers compared with nil are nil-able without being listed in optVars
 //
 //	% on ints (Int.tmod); writes through maps shared with the caller (target option sharedMaps)
+//	x[:hi], x[lo:], x[lo:hi] (GoLite.sliceTo / sliceFrom); an out argument (outArgs) that is a captured pointer
+//	variable instead of `&x`; `.., err := f(..)` + `return .., err`: err is nil-able without being listed
 //
 // The run-time conventions are those of lean/NotationModel/GoLite.lean.
 
@@ -260,6 +262,18 @@ func (g *g2l) expr(e ast.Expr) string {
 	case *ast.SliceExpr:
 		if x.Low == nil && x.High == nil && x.Max == nil {
 			return g.expr(x.X) // x[:] - the whole array / slice
+		}
+		if x.Max == nil && !x.Slice3 {
+			// x[lo:hi] = (x[:hi])[lo:]; Go panics where a bound is out of range, GoLite.sliceTo / sliceFrom clamp
+			// (absence of panics is not the translator's business, see GoLite.deref)
+			s := g.expr(x.X)
+			if x.High != nil {
+				s = "(GoLite.sliceTo " + s + " " + g.expr(x.High) + ")"
+			}
+			if x.Low != nil {
+				s = "(GoLite.sliceFrom " + s + " " + g.expr(x.Low) + ")"
+			}
+			return s
 		}
 	}
 	g.fail(e, "unsupported expression %s (%T)", exprText(e), e)
@@ -800,6 +814,15 @@ func (g *g2l) outArg(e ast.Expr) ast.Expr {
 			return ue.X
 		}
 	}
+	// a pointer the function (or part) was handed from outside and that the target threads through as a capture:
+	// the call assigns through it just as through `&x`
+	if id, ok := c.Args[i].(*ast.Ident); ok {
+		for _, cp := range g.t.captures {
+			if cp == id.Name {
+				return id
+			}
+		}
+	}
 	g.fail(e, "out argument %d of %s is not `&x`", i, callName(c))
 	return nil
 }
@@ -1319,6 +1342,37 @@ func g2lTranslate(t *g2lTarget) string {
 		}
 		return true
 	})
+	// the last variable of a multi-value `.., x := f(..)` that is handed back in a nil-able result position holds
+	// a nil-able value (Go's `v, err := f(); return v, err`), whatever it is called
+	if t.closureOf == "" {
+		lastOfCall := map[string]bool{}
+		ast.Inspect(fd.Body, func(n ast.Node) bool {
+			if _, ok := n.(*ast.FuncLit); ok {
+				return false
+			}
+			if as, ok := n.(*ast.AssignStmt); ok && as.Tok == token.DEFINE && len(as.Lhs) >= 2 && len(as.Rhs) == 1 {
+				if _, isCall := as.Rhs[0].(*ast.CallExpr); isCall {
+					if id, ok := as.Lhs[len(as.Lhs)-1].(*ast.Ident); ok && id.Name != "_" {
+						lastOfCall[id.Name] = true
+					}
+				}
+			}
+			return true
+		})
+		ast.Inspect(fd.Body, func(n ast.Node) bool {
+			if _, ok := n.(*ast.FuncLit); ok {
+				return false
+			}
+			if rs, ok := n.(*ast.ReturnStmt); ok && len(rs.Results) == len(t.retOpt) {
+				for i, r := range rs.Results {
+					if id, ok := r.(*ast.Ident); ok && t.retOpt[i] && lastOfCall[id.Name] {
+						g.opt[id.Name] = true
+					}
+				}
+			}
+			return true
+		})
+	}
 	for _, v := range t.ownedVars {
 		g.owned[v] = true
 	}
@@ -1466,6 +1520,37 @@ func g2lTranslate(t *g2lTarget) string {
 	o.line(0, fmt.Sprintf("def %s %s : %s := Id.run do", t.leanName, t.params, t.ret))
 	for _, c := range t.captures {
 		o.line(1, "let mut "+g2lIdent(c)+" := "+g2lIdent(c))
+	}
+	if t.closureOf == "" && t.after == "" && fd.Type.Params != nil {
+		// a parameter the body assigns to is a mutable local, as in Go (captures are that already)
+		assigned := map[string]bool{}
+		ast.Inspect(fd.Body, func(n ast.Node) bool {
+			switch x := n.(type) {
+			case *ast.FuncLit:
+				return false
+			case *ast.AssignStmt:
+				if x.Tok != token.DEFINE {
+					for _, l := range x.Lhs {
+						if id, ok := l.(*ast.Ident); ok {
+							assigned[id.Name] = true
+						}
+					}
+				}
+			case *ast.IncDecStmt:
+				if id, ok := x.X.(*ast.Ident); ok {
+					assigned[id.Name] = true
+				}
+			}
+			return true
+		})
+		for _, f := range fd.Type.Params.List {
+			for _, n := range f.Names {
+				if assigned[n.Name] && !g.declared[n.Name] {
+					g.declared[n.Name] = true
+					o.line(1, "let mut "+g2lIdent(n.Name)+" := "+g2lIdent(n.Name))
+				}
+			}
+		}
 	}
 	for _, p := range t.sharedMaps {
 		root := p
